@@ -44,6 +44,42 @@ struct AllocInfo<SimReallocAlloc<T>> {
   static const bool hasRealloc = true;
 };
 
+/// Element input/output: how a model value (key, pay) becomes an element and back.  Class element types carry (key, pay)
+/// themselves; arithmetic element types (double) encode it as key * 65536 + pay, and the model value (0, 0) alternates
+/// between +0.0 and -0.0 (equal for std::vector, different bit patterns).
+template <class T, bool Arith = std::is_arithmetic<T>::value>
+struct ElemIO {
+  static const bool hooks = T::kHooks;
+  static const bool arith = false;
+  static T make(const Val &x) { return T(x.key, x.pay); }
+  static Val val(const T &e) { return Val{e.k(), e.p()}; }
+  static int state(const T &e) { return T::state_of(e); }
+  template <class V> static T &emplace_back(V &v, const Val &x) { return v.emplace_back(x.key, x.pay); }
+  template <class V, class It> static typename V::iterator emplace(V &v, It pos, const Val &x) { return v.emplace(pos, x.key, x.pay); }
+  template <class V, class It> static typename V::iterator emplace_member(V &v, It pos, const T &src, int pay) { return v.emplace(pos, src.key_, pay); }
+  template <class V> static T &emplace_back_member(V &v, const T &src, int pay) { return v.emplace_back(src.key_, pay); }
+};
+extern unsigned g_zeroSign;
+template <class T>
+struct ElemIO<T, true> {
+  static const bool hooks = false;
+  static const bool arith = true;
+  static T make(const Val &x) {
+    if (x.key == 0 && x.pay == 0) return (g_zeroSign++ & 1) ? T(-0.0) : T(0);
+    return T((long long)x.key * 65536 + x.pay);
+  }
+  static Val val(const T &e) {
+    if (!(e >= T(0) && e < T(1e15))) return Val{-1, -1};  // garbage / NaN
+    long long n = (long long)e;
+    return Val{int(n / 65536), int(n % 65536)};
+  }
+  static int state(const T &) { return ES_ALIVE; }
+  template <class V> static T &emplace_back(V &v, const Val &x) { return v.emplace_back(make(x)); }
+  template <class V, class It> static typename V::iterator emplace(V &v, It pos, const Val &x) { return v.emplace(pos, make(x)); }
+  template <class V, class It> static typename V::iterator emplace_member(V &v, It pos, const T &, int) { return v.end() + 0 * (pos - pos); }
+  template <class V> static T &emplace_back_member(V &v, const T &, int) { return v.back(); }
+};
+
 template <class V>
 struct IsUnchecked : std::false_type {};
 template <class T, class S, S N>
@@ -78,14 +114,14 @@ struct VecAdapter {
     if (n > (size_t)v.capacity() || n > (1u << 20)) { err = "size() exceeds capacity()"; return false; }
     const T *d = v.data();
     for (size_t i = 0; i < n; ++i) {
-      int st = T::state_of(d[i]);
+      int st = ElemIO<T>::state(d[i]);
       if (st != ES_ALIVE) {
         char m[96];
         snprintf(m, sizeof m, "visible element [%zu] of %zu is %s", i, n, estate_name(st));
         err = m;
         return false;
       }
-      out.push_back(val_of(d[i]));
+      out.push_back(ElemIO<T>::val(d[i]));
     }
     return true;
   }
@@ -95,7 +131,7 @@ struct VecAdapter {
   static void with_range(const IOp &op, Result &res, F &&f) {
     std::vector<T> src;
     src.reserve(op.vals.size());
-    for (const Val &x : op.vals) src.emplace_back(x.key, x.pay);
+    for (const Val &x : op.vals) src.push_back(ElemIO<T>::make(x));
     switch (op.stream) {
       default:
       case SRC_PTR: { const T *b = src.data(); f(b, b + src.size()); } break;
@@ -118,9 +154,9 @@ struct VecAdapter {
     const std::vector<Val> &x = op.vals;
     switch (x.size()) {
       case 0: { std::initializer_list<T> il{}; f(il); } break;
-      case 1: { T a(x[0].key, x[0].pay); std::initializer_list<T> il{a}; f(il); } break;
-      case 2: { T a(x[0].key, x[0].pay), b(x[1].key, x[1].pay); std::initializer_list<T> il{a, b}; f(il); } break;
-      default: { T a(x[0].key, x[0].pay), b(x[1].key, x[1].pay), c(x[2].key, x[2].pay); std::initializer_list<T> il{a, b, c}; f(il); } break;
+      case 1: { T a = ElemIO<T>::make(x[0]); std::initializer_list<T> il{a}; f(il); } break;
+      case 2: { T a = ElemIO<T>::make(x[0]), b = ElemIO<T>::make(x[1]); std::initializer_list<T> il{a, b}; f(il); } break;
+      default: { T a = ElemIO<T>::make(x[0]), b = ElemIO<T>::make(x[1]), c = ElemIO<T>::make(x[2]); std::initializer_list<T> il{a, b, c}; f(il); } break;
     }
   }
 
@@ -162,23 +198,23 @@ struct VecAdapter {
   static void run(V &v, V *w, void *self, const IOp &op, Result &res) {
     const std::vector<Val> &x = op.vals;
     switch (op.kind) {
-      case V_PUSH_COPY: { T t(x[0].key, x[0].pay); Arm a; v.push_back(t); } break;
-      case V_PUSH_MOVE: { T t(x[0].key, x[0].pay); Arm a; v.push_back(std::move(t)); } break;
+      case V_PUSH_COPY: { T t = ElemIO<T>::make(x[0]); Arm a; v.push_back(t); } break;
+      case V_PUSH_MOVE: { T t = ElemIO<T>::make(x[0]); Arm a; v.push_back(std::move(t)); } break;
       case V_EMPLACE_BACK: {
         Arm a;
-        T &r = v.emplace_back(x[0].key, x[0].pay);
+        T &r = ElemIO<T>::emplace_back(v, x[0]);
         res.refOk = (&r == v.data() + (v.size() - 1));
       } break;
-      case V_INSERT_COPY: { T t(x[0].key, x[0].pay); Arm a; auto it = v.insert(v.begin() + op.pos, t); res.retIndex = it - v.begin(); } break;
-      case V_INSERT_MOVE: { T t(x[0].key, x[0].pay); Arm a; auto it = v.insert(v.begin() + op.pos, std::move(t)); res.retIndex = it - v.begin(); } break;
-      case V_INSERT_N: { T t(x[0].key, x[0].pay); Arm a; auto it = v.insert(v.begin() + op.pos, (S)op.count, t); res.retIndex = it - v.begin(); } break;
+      case V_INSERT_COPY: { T t = ElemIO<T>::make(x[0]); Arm a; auto it = v.insert(v.begin() + op.pos, t); res.retIndex = it - v.begin(); } break;
+      case V_INSERT_MOVE: { T t = ElemIO<T>::make(x[0]); Arm a; auto it = v.insert(v.begin() + op.pos, std::move(t)); res.retIndex = it - v.begin(); } break;
+      case V_INSERT_N: { T t = ElemIO<T>::make(x[0]); Arm a; auto it = v.insert(v.begin() + op.pos, (S)op.count, t); res.retIndex = it - v.begin(); } break;
       case V_INSERT_RANGE:
         with_range(op, res, [&](auto f, auto l) { Arm a; auto it = v.insert(v.begin() + op.pos, f, l); res.retIndex = it - v.begin(); });
         break;
       case V_INSERT_IL:
         with_il(op, [&](std::initializer_list<T> il) { Arm a; auto it = v.insert(v.begin() + op.pos, il); res.retIndex = it - v.begin(); });
         break;
-      case V_EMPLACE: { Arm a; auto it = v.emplace(v.begin() + op.pos, x[0].key, x[0].pay); res.retIndex = it - v.begin(); } break;
+      case V_EMPLACE: { Arm a; auto it = ElemIO<T>::emplace(v, v.begin() + op.pos, x[0]); res.retIndex = it - v.begin(); } break;
       case V_ERASE1: { Arm a; auto it = v.erase(v.begin() + op.pos); res.retIndex = it - v.begin(); } break;
       case V_ERASE_RANGE: { Arm a; auto it = v.erase(v.begin() + op.pos, v.begin() + op.pos2); res.retIndex = it - v.begin(); } break;
       case V_POP_BACK: { Arm a; v.pop_back(); } break;
@@ -187,15 +223,15 @@ struct VecAdapter {
         G.armed = true;
         T r = v.pop_back_val();
         G.armed = false;
-        res.hasVal = true; res.val = val_of(r);
+        res.hasVal = true; res.val = ElemIO<T>::val(r);
 #endif
       } break;
       case V_RESIZE: { Arm a; v.resize((S)op.count); } break;
-      case V_RESIZE_V: { T t(x[0].key, x[0].pay); Arm a; v.resize((S)op.count, t); } break;
+      case V_RESIZE_V: { T t = ElemIO<T>::make(x[0]); Arm a; v.resize((S)op.count, t); } break;
       case V_CLEAR: { Arm a; v.clear(); } break;
       case V_RESERVE: { Arm a; v.reserve((S)op.count); } break;
       case V_SHRINK: { Arm a; v.shrink_to_fit(); } break;
-      case V_ASSIGN_N: { T t(x[0].key, x[0].pay); Arm a; v.assign((S)op.count, t); } break;
+      case V_ASSIGN_N: { T t = ElemIO<T>::make(x[0]); Arm a; v.assign((S)op.count, t); } break;
       case V_ASSIGN_RANGE:
         with_range(op, res, [&](auto f, auto l) { Arm a; v.assign(f, l); });
         break;
@@ -207,7 +243,7 @@ struct VecAdapter {
         with_range(op, res, [&](auto f, auto l) { Arm a; v.append(f, l); });
         break;
       case V_APPEND_N: { Arm a; v.append((S)op.count); } break;
-      case V_APPEND_NV: { T t(x[0].key, x[0].pay); Arm a; v.append((S)op.count, t); } break;
+      case V_APPEND_NV: { T t = ElemIO<T>::make(x[0]); Arm a; v.append((S)op.count, t); } break;
       case V_APPEND_IL:
         with_il(op, [&](std::initializer_list<T> il) { Arm a; v.append(il); });
         break;
@@ -231,7 +267,7 @@ struct VecAdapter {
         reconstruct(self, [&](void *at) { if (op.variant & 1) ::new (at) V((S)op.count, A()); else ::new (at) V((S)op.count); });
         break;
       case V_CTOR_NV: {
-        T t(x[0].key, x[0].pay);
+        T t = ElemIO<T>::make(x[0]);
         reconstruct(self, [&](void *at) { if (op.variant & 1) ::new (at) V((S)op.count, t, A()); else ::new (at) V((S)op.count, t); });
       } break;
       case V_CTOR_RANGE:
@@ -261,18 +297,18 @@ struct VecAdapter {
         Arm arm;
         const V &cv = v;
         size_t i = op.pos;
-        res.reads.push_back(val_of(v.at((S)i)));
-        res.reads.push_back(val_of(cv.at((S)i)));
-        res.reads.push_back(val_of(v[(S)i]));
-        res.reads.push_back(val_of(cv[(S)i]));
-        res.reads.push_back(val_of(v.front()));
-        res.reads.push_back(val_of(cv.back()));
-        res.reads.push_back(val_of(v.data()[i]));
-        res.reads.push_back(val_of(*(cv.begin() + i)));
-        res.reads.push_back(val_of(*(cv.cend() - 1)));
-        res.reads.push_back(val_of(*cv.rbegin()));
-        res.reads.push_back(val_of(*(v.rend() - 1)));
-        res.reads.push_back(val_of(*(cv.crbegin() + (cv.size() - 1 - i))));
+        res.reads.push_back(ElemIO<T>::val(v.at((S)i)));
+        res.reads.push_back(ElemIO<T>::val(cv.at((S)i)));
+        res.reads.push_back(ElemIO<T>::val(v[(S)i]));
+        res.reads.push_back(ElemIO<T>::val(cv[(S)i]));
+        res.reads.push_back(ElemIO<T>::val(v.front()));
+        res.reads.push_back(ElemIO<T>::val(cv.back()));
+        res.reads.push_back(ElemIO<T>::val(v.data()[i]));
+        res.reads.push_back(ElemIO<T>::val(*(cv.begin() + i)));
+        res.reads.push_back(ElemIO<T>::val(*(cv.cend() - 1)));
+        res.reads.push_back(ElemIO<T>::val(*cv.rbegin()));
+        res.reads.push_back(ElemIO<T>::val(*(v.rend() - 1)));
+        res.reads.push_back(ElemIO<T>::val(*(cv.crbegin() + (cv.size() - 1 - i))));
         res.bits = (unsigned)(cv.end() - cv.begin()) == (unsigned)cv.size() ? 1u : 0u;
         if (cv.empty()) res.bits |= 2;
       } break;
@@ -285,16 +321,16 @@ struct VecAdapter {
       case V_ALIAS_INSERT: { Arm a; auto it = v.insert(v.begin() + op.pos, v[(S)op.srcIdx]); res.retIndex = it - v.begin(); } break;
       case V_ALIAS_INSERT_N: { Arm a; auto it = v.insert(v.begin() + op.pos, (S)op.count, v[(S)op.srcIdx]); res.retIndex = it - v.begin(); } break;
       case V_ALIAS_EMPLACE: { Arm a; auto it = v.emplace(v.begin() + op.pos, v[(S)op.srcIdx]); res.retIndex = it - v.begin(); } break;
-      case V_ALIAS_EMPLACE_ARG: { Arm a; auto it = v.emplace(v.begin() + op.pos, v[(S)op.srcIdx].key_, x[0].pay); res.retIndex = it - v.begin(); } break;
+      case V_ALIAS_EMPLACE_ARG: { if (ElemIO<T>::arith) { res.outcome = OUT_NOOP; break; } Arm a; auto it = ElemIO<T>::emplace_member(v, v.begin() + op.pos, v[(S)op.srcIdx], x[0].pay); res.retIndex = it - v.begin(); } break;
       case V_ALIAS_EMPLACE_BACK: { Arm a; T &r = v.emplace_back(v[(S)op.srcIdx]); res.refOk = (&r == v.data() + (v.size() - 1)); } break;
-      case V_ALIAS_EMPLACE_BACK_ARG: { Arm a; T &r = v.emplace_back(v[(S)op.srcIdx].key_, x[0].pay); res.refOk = (&r == v.data() + (v.size() - 1)); } break;
+      case V_ALIAS_EMPLACE_BACK_ARG: { if (ElemIO<T>::arith) { res.outcome = OUT_NOOP; break; } Arm a; T &r = ElemIO<T>::emplace_back_member(v, v[(S)op.srcIdx], x[0].pay); res.refOk = (&r == v.data() + (v.size() - 1)); } break;
       case V_ALIAS_RESIZE: { Arm a; v.resize((S)op.count, v[(S)op.srcIdx]); } break;
       case V_ALIAS_ASSIGN: { Arm a; v.assign((S)op.count, v[(S)op.srcIdx]); } break;
 #ifdef AMC_NONSTD_FEATURES
       case V_ALIAS_APPEND: { Arm a; v.append((S)op.count, v[(S)op.srcIdx]); } break;
 #endif
       case V_FILL_TO_N: case V_FILL_TO_CAP: case V_FILL_TO_LIMIT_MINUS: case V_GROW_PAST_N:
-        for (size_t i = 0; i < x.size(); ++i) { T t(x[i].key, x[i].pay); Arm a; v.push_back(std::move(t)); }
+        for (size_t i = 0; i < x.size(); ++i) { T t = ElemIO<T>::make(x[i]); Arm a; v.push_back(std::move(t)); }
         break;
       case V_DRAIN:
         if (op.variant % 3 == 0) { Arm a; while (!v.empty()) v.pop_back(); }
@@ -306,9 +342,9 @@ struct VecAdapter {
         for (size_t i = 0; i < x.size(); ++i) {
           unsigned ev0 = G.opAllocCalls + G.opReallocCalls; uint64_t inpl0 = G.reallocInPlace; size_t sz0 = (size_t)v.size();
           g_reallocExpect.known = true; g_reallocExpect.n = 1; g_reallocExpect.sizes[0] = sz0;
-          if (i % 3 == 0) { T t(x[i].key, x[i].pay); Arm a; v.push_back(std::move(t)); }
-          else if (i % 3 == 1) { Arm a; v.emplace_back(x[i].key, x[i].pay); }
-          else { T t(x[i].key, x[i].pay); Arm a; v.push_back(t); }
+          if (i % 3 == 0) { T t = ElemIO<T>::make(x[i]); Arm a; v.push_back(std::move(t)); }
+          else if (i % 3 == 1) { Arm a; ElemIO<T>::emplace_back(v, x[i]); }
+          else { T t = ElemIO<T>::make(x[i]); Arm a; v.push_back(t); }
           if (G.opAllocCalls + G.opReallocCalls != ev0) {
             ++res.growEvents;
             if (G.reallocInPlace == inpl0) res.relocs += sz0;
@@ -318,8 +354,8 @@ struct VecAdapter {
         res.bits = (unsigned)(G.opElemEv[EV_MOVE_CTOR] - moves0);
       } break;
 #ifdef AMC_CXX20
-      case V_ERASE_VALUE: { T t(x[0].key, x[0].pay); Arm a; res.retCount = (long)erase(v, t); } break;
-      case V_ERASE_IF: { int m = op.mod; Arm a; res.retCount = (long)erase_if(v, [m](const T &e) { return e.k() % m == 0; }); } break;
+      case V_ERASE_VALUE: { T t = ElemIO<T>::make(x[0]); Arm a; res.retCount = (long)erase(v, t); } break;
+      case V_ERASE_IF: { int m = op.mod; Arm a; res.retCount = (long)erase_if(v, [m](const T &e) { return ElemIO<T>::val(e).key % m == 0; }); } break;
 #endif
       default:
         res.outcome = OUT_NOOP;
@@ -338,7 +374,8 @@ struct VecAdapter {
     t->objSize = sizeof(V); t->objAlign = alignof(V); t->elemSize = sizeof(T);
     t->elemTriv = std::is_trivially_copyable<T>::value;
     t->elemTR = amc::is_trivially_relocatable<T>::value;
-    t->elemHooks = T::kHooks;
+    t->elemHooks = ElemIO<T>::hooks;
+    t->elemArith = ElemIO<T>::arith;
     t->elemNoexceptMove = std::is_nothrow_move_constructible<T>::value;
     t->claimsTR = amc::is_trivially_relocatable<V>::value;
     t->sizeSigned = std::is_signed<S>::value;
